@@ -3,8 +3,8 @@ package sym
 import (
 	"fmt"
 	"os"
-	"sync"
 	"regexp/syntax"
+	"sync"
 
 	"verif/gosym/smt"
 )
